@@ -34,10 +34,23 @@ def recv(ev):
     return None
 
 
+LEVELS = ("debug", "info", "warning", "warn", "error", "exception", "critical", "log")
+
+
+def _logging_fn(f):
+    return isinstance(f, tuple) and f and f[0] == "ext" and (f[1].startswith("logging.") or f[1] == "logging")
+
+
 def is_log(ev):
+    """a logging call: <something>_log / LOG / logger .debug(...), the stdlib logging module's functions, or a
+    method of a logger obtained from logging.getLogger(...) on the spot"""
     f = ev.d["func"]
-    if isinstance(f, tuple) and f[0] == "attr" and f[2] in ("debug", "info", "warning", "error", "exception", "critical"):
+    if _logging_fn(f):
+        return True
+    if isinstance(f, tuple) and f[0] == "attr" and f[2] in LEVELS:
         b = f[1]
+        if isinstance(b, tuple) and b and b[0] == "call" and (_logging_fn(b[1]) or (isinstance(b[1], tuple) and b[1][0] == "attr" and b[1][2] == "getLogger")):
+            return True
         s = fmt(b)
         return s.endswith("_log") or s.endswith("LOG") or s.endswith("logger") or s == "log"
     return False
